@@ -14,6 +14,8 @@ import (
 	"fmt"
 	"math/big"
 	"math/rand/v2"
+	"os"
+	"strconv"
 	"strings"
 
 	"github.com/consensys/gnark-crypto/ecc"
@@ -89,6 +91,10 @@ func shardTok(s []byte) string {
 }
 
 func suiteRS(e *Env) {
+	if e.Replay != "" {
+		rsReplay(e)
+		return
+	}
 	e.In("reset")
 	e.In("gfcheck")
 	e.Obs("ok")
@@ -581,22 +587,30 @@ func (z *zkEnv) verify(proofBz, y []byte) (cls string) {
 	})
 }
 
-func rsZk(e *Env) {
-	r := e.R
+func zkSetup(e *Env) *zkEnv {
 	gnarklogger.Disable() // gnark logs to stdout
 	params := datypes.DefaultParams()
 	z := &zkEnv{}
 	var err error
 	if z.ccs, err = frontend.Compile(ecc.BN254.ScalarField(), r1cs.NewBuilder, &zkp.ValidityProofCircuit{}); err != nil {
 		e.Obs("zk-setup-error compile %v", err)
-		return
+		return nil
 	}
 	if z.pk, err = zkp.UnmarshalProvingKey(params.ZkpProvingKey); err != nil {
 		e.Obs("zk-setup-error pk %v", err)
-		return
+		return nil
 	}
 	if z.vk, err = zkp.UnmarshalVerifyingKey(params.ZkpVerifyingKey); err != nil {
 		e.Obs("zk-setup-error vk %v", err)
+		return nil
+	}
+	return z
+}
+
+func rsZk(e *Env) {
+	r := e.R
+	z := zkSetup(e)
+	if z == nil {
 		return
 	}
 	rmod := fr.Modulus()
@@ -627,7 +641,7 @@ func rsZk(e *Env) {
 		mInt := new(big.Int).SetBytes(m)
 		// honest proof
 		proof, cls := z.prove(h, m)
-		e.In("zkprove %s %s", mInt, hx(m))
+		e.In("zkprove %s %s %s", mInt, hx(m), hx(h))
 		e.Obs("%s", cls)
 		e.Oracle("zk_complete", cls == "ok", "honest witness must be provable")
 		if cls != "ok" {
@@ -640,7 +654,7 @@ func rsZk(e *Env) {
 		flip[31-r.N(8)] ^= 1 << uint(r.N(8))
 		for _, y := range [][]byte{other, flip} {
 			_, cls := z.prove(h, y)
-			e.In("zkprove %s %s", mInt, hx(y))
+			e.In("zkprove %s %s %s", mInt, hx(y), hx(h))
 			e.Obs("%s", cls)
 			e.Stat("zkprove.wrong." + cls)
 			e.Oracle("zk_no_proof_for_other", cls != "ok", "prover produced a proof for a non-matching double hash")
@@ -670,7 +684,7 @@ func rsZk(e *Env) {
 		}
 		for _, c := range ys {
 			cls := z.verify(proof, c.y)
-			e.In("zkverify %s %s", mInt, hx(c.y))
+			e.In("zkverify %s %s %s", mInt, hx(c.y), hx(h))
 			e.Obs("%s", cls)
 			e.Stat("zkverify." + c.class + "." + cls)
 			if c.class == "same" {
@@ -685,7 +699,7 @@ func rsZk(e *Env) {
 		// a proof made for another shard hash does not verify against this double hash
 		if len(items) > 1 && !bytes.Equal(items[len(items)-2].m, m) {
 			cls := z.verify(items[len(items)-2].proof, m)
-			e.In("zkverify %s %s", new(big.Int).SetBytes(items[len(items)-2].m), hx(m))
+			e.In("zkverify %s %s %s", new(big.Int).SetBytes(items[len(items)-2].m), hx(m), hx(items[len(items)-2].h))
 			e.Obs("%s", cls)
 			e.Oracle("zk_binds", cls != "ok", "class=other_proof proof for another shard hash verified")
 		}
@@ -696,5 +710,105 @@ func rsZk(e *Env) {
 		e.Stat("zkverify.corrupt_proof." + cls)
 		e.Oracle("no_panic", cls != "panic", "corrupted proof bytes")
 		e.Oracle("zk_corrupt_proof_rejected", cls != "ok", "a proof with one flipped bit verified")
+	}
+}
+
+// ---------------------------------------------------------------------------------------------- replay
+
+func unhx(s string) []byte {
+	if s == "-" {
+		return []byte{}
+	}
+	b, _ := hex.DecodeString(s)
+	return b
+}
+
+// rsReplay re-executes self-contained op lines (as printed after "> ") on the real code.
+func rsReplay(e *Env) {
+	data, err := os.ReadFile(e.Replay)
+	if err != nil {
+		e.Obs("replay-error %v", err)
+		return
+	}
+	var z *zkEnv
+	atoi := func(s string) int { v, _ := strconv.ParseInt(s, 10, 64); return int(v) }
+	for _, line := range strings.Split(string(data), "\n") {
+		t := strings.Fields(strings.TrimPrefix(line, "> "))
+		if len(t) == 0 {
+			continue
+		}
+		switch {
+		case t[0] == "gfcheck":
+			e.In("gfcheck")
+			e.Obs("ok")
+		case t[0] == "enc" && len(t) == 4:
+			rsEnc(e, unhx(t[3]), atoi(t[1]), atoi(t[2]), true)
+		case (t[0] == "rec" || t[0] == "join") && len(t) >= 3:
+			in := make([][]byte, len(t)-3)
+			for i, s := range t[3:] {
+				switch s {
+				case "nil":
+					in[i] = nil
+				case "e":
+					in[i] = []byte{}
+				default:
+					in[i] = unhx(s)
+				}
+			}
+			var out []byte
+			cls := guard3(func() (err error) {
+				if t[0] == "rec" {
+					out, err = ec.ReconstructAndJoinShards(in, atoi(t[1]), atoi(t[2]))
+				} else {
+					out, err = ec.JoinShards(in, atoi(t[1]), atoi(t[2]))
+				}
+				return
+			})
+			e.In("%s", strings.Join(t, " "))
+			e.Obs("%s", map[bool]string{true: "ok " + hx(out), false: cls}[cls == "ok"])
+		case t[0] == "idx" && len(t) == 5:
+			s1, _ := strconv.ParseUint(t[3], 10, 64)
+			s2, _ := strconv.ParseUint(t[4], 10, 64)
+			n, th := int64(atoi(t[1])), int64(atoi(t[2]))
+			var out []int64
+			cls := guard3(func() error { out = datypes.GetRandomIndicesFromSeed(n, th, s1, s2); return nil })
+			e.In("%s", strings.Join(t, " "))
+			e.Obs("%s", map[bool]string{true: "ok " + idxStr(out), false: cls}[cls == "ok"])
+			if n >= 0 && th >= 0 {
+				want := min(th, n)
+				seen := map[int64]bool{}
+				good := cls == "ok" && int64(len(out)) == want
+				for _, x := range out {
+					good = good && x >= 0 && x < n && !seen[x]
+					seen[x] = true
+				}
+				e.Oracle("assign_distinct_in_range", good, "n=%d t=%d -> %s %v", n, th, cls, out)
+			}
+		case (t[0] == "zkverify" || t[0] == "zkprove") && len(t) == 4:
+			if z == nil {
+				if z = zkSetup(e); z == nil {
+					return
+				}
+			}
+			h, y := unhx(t[3]), unhx(t[2])
+			m := mimcOf(h)
+			e.In("%s %s %s %s", t[0], new(big.Int).SetBytes(m), t[2], t[3])
+			if t[0] == "zkprove" {
+				_, cls := z.prove(h, y)
+				e.Obs("%s", cls)
+			} else {
+				proof, cls := z.prove(h, m)
+				if cls == "ok" {
+					cls = z.verify(proof, y)
+				}
+				e.Obs("%s", cls)
+				if !bytes.Equal(y, m) {
+					e.Oracle("zk_binds", cls != "ok", "class=replay proof verified against bytes %s != double hash %s", hx(y), hx(m))
+				}
+			}
+		default:
+			e.In("%s", strings.Join(t, " "))
+			e.Obs("not-replayable")
+		}
 	}
 }
